@@ -385,7 +385,7 @@ fn spec(t: Tier) -> Spec {
     Spec {
         id: "C04",
         level: "model_checking",
-        rule: format!("{} configurations (mode in none,-n1,-n2,-n3,-L1,-L2,'-n2 -L1','-L2 -n1' x -s in absent, base+k x -x x -r x initial args); for each an explicit-state BFS over the implementation's own batching state (hook H3 snapshot: every limiter's counters, lengths of the batch under construction, pending flag, sticky result; plus the reader's unconsumed terminator) from the empty history, input symbols = argument in {{1,2,3,6 ASCII bytes, 'é' (2 bytes, 1 character), the empty argument written \"\"}} x terminator in {{blank, newline, blank+newline}}; a state seen before is not expanded; every expanded history is run to EOF through the real xargs_main and its invocations (hook H2) compared with the reference greedy batcher (lossless, in order, command+initial args unchanged, -n/-L/-s respected simultaneously, maximal, empty-input rule, fatal overflow rule); configurations whose state space is finite are explored to closure, the unbounded ones (no -s and no -n) to depth {}; plain enumeration without hashing to depth {} cross-checks the canonicalisation; scale slice: inputs of 100, 1000 and 5000 arguments (lengths cycling 1..13 bytes, é and empty arguments interspersed, lines of 1..5 arguments, some ending in a blank) under -n 7|64|1000, -L 3|100, both orders of -n/-L, -s base+50|1000|5000|100000, -x on/off, with/without initial arguments, each end to end against the reference batcher; binary slice: all histories <= {} for 8 configurations through the xargs binary and a recorder child", configs(t).len(), t.pick(3, 4), t.pick(2, 3), t.pick(2, 3)),
+        rule: format!("{} configurations (mode in none,-n1,-n2,-n3,-L1,-L2,'-n2 -L1','-L2 -n1' x -s in absent, base+k x -x x -r x initial args); for each an explicit-state BFS over the implementation's own batching state (hook H3 snapshot: every limiter's counters, lengths of the batch under construction, pending flag, sticky result; plus the reader's unconsumed terminator) from the empty history, input symbols = argument in {{1,2,3,6 ASCII bytes, 'é' (2 bytes, 1 character), the empty argument written \"\"}} x terminator in {{blank, newline, blank+newline}}; a state seen before is not expanded; every expanded history is run to EOF through the real xargs_main and its invocations (hook H2) compared with the reference greedy batcher (lossless, in order, command+initial args unchanged, -n/-L/-s respected simultaneously, maximal, empty-input rule, fatal overflow rule); configurations whose state space is finite are explored to closure, the unbounded ones (no -s and no -n) to depth {}; plain enumeration without hashing to depth {} cross-checks the canonicalisation; scale slice: inputs of 100, 1000 and 5000 arguments (lengths cycling 1..13 bytes, é and empty arguments interspersed, lines of 1..5 arguments, some ending in a blank) under -n 7|64|1000, -L 3|100, both orders of -n/-L, -s base+50|1000|5000|100000, -x on/off, with/without initial arguments, each end to end against the reference batcher; spelling slice: every way of writing -n, -L, -s, -x, -r, -P 1 and -a FILE (separate, attached, long, long with '=') on four inputs gives the invocations, status and diagnostics-or-not of the first spelling; binary slice: all histories <= {} for 8 configurations through the xargs binary and a recorder child", configs(t).len(), t.pick(3, 4), t.pick(2, 3), t.pick(2, 3)),
         bound: json!({"configs": configs(t).len(), "symbols": 18, "closure_depth_cap": 12, "unbounded_depth": t.pick(3, 4)}),
         assumptions: vec![
             "when -n and -L are both given the one given last decides (they are mutually exclusive)".into(),
@@ -415,8 +415,67 @@ fn run(ctx: &mut Ctx) {
         }
     }
     scale_slice(ctx);
+    if ctx.shard == 1 % ctx.nshards {
+        spelling_slice(ctx);
+    }
     binary_slice(ctx);
     let _ = std::fs::remove_file(ctx.sbx.join(".mc-xin"));
+}
+
+/// Every way of writing each limit option (-n 2, -n2, --max-args 2, --max-args=2; likewise -L,
+/// -s; -x / --exit; -r / --no-run-if-empty; -a FILE / -aFILE / --arg-file FILE / --arg-file=FILE;
+/// -P 1 in its four forms, which changes nothing) must give the invocations, exit status and
+/// diagnostics-or-not of the first spelling of its family (which the search above judges against
+/// the reference batcher), on four inputs.
+pub fn spelling_slice(ctx: &mut Ctx) {
+    let file = ctx.sbx.join(".mc-xin");
+    let f = file.to_str().unwrap().to_string();
+    let inputs: [&[u8]; 4] = [b"a b c\nd e\nf\n g h i j\n", b"", b"aaaa bbbb cccc dddd eeee ffff\n'x y' z\n", b"aaaaaaaaaaaaaaaaaaaaaaaaaaaaaaaa b\n"];
+    let fam = |v: &[&[&str]]| -> Vec<Vec<String>> { v.iter().map(|a| a.iter().map(|s| s.to_string()).collect()).collect() };
+    let families: Vec<(&str, Vec<Vec<String>>)> = vec![
+        ("-n", fam(&[&["-n", "2"], &["-n2"], &["--max-args", "2"], &["--max-args=2"]])),
+        ("-L", fam(&[&["-L", "2"], &["-L2"], &["--max-lines", "2"], &["--max-lines=2"]])),
+        ("-s", fam(&[&["-s", "24"], &["-s24"], &["--max-chars", "24"], &["--max-chars=24"]])),
+        ("-x", fam(&[&["-s", "24", "-n", "3", "-x"], &["-s", "24", "-n", "3", "--exit"], &["--exit", "--max-chars=24", "--max-args=3"], &["-x", "-s24", "-n3"]])),
+        ("-r", fam(&[&["-r"], &["--no-run-if-empty"]])),
+        ("-r with -n", fam(&[&["-r", "-n", "2"], &["--no-run-if-empty", "--max-args=2"], &["-n2", "-r"]])),
+        ("-P 1", fam(&[&["-n", "2"], &["-P", "1", "-n", "2"], &["-P1", "-n", "2"], &["--max-procs", "1", "-n", "2"], &["--max-procs=1", "-n", "2"]])),
+        ("-n with -L (last wins)", fam(&[&["-L", "1", "-n", "2"], &["--max-lines=1", "--max-args=2"], &["-L1", "-n2"]])),
+    ];
+    let afile: Vec<Vec<String>> = vec![vec!["-a".into(), f.clone()], vec![format!("-a{f}")], vec!["--arg-file".into(), f.clone()], vec![format!("--arg-file={f}")]];
+    for input in inputs {
+        std::fs::write(&file, input).unwrap();
+        for (name, spellings) in &families {
+            let mut first: Option<(Vec<Vec<Vec<u8>>>, Result<i32, String>, bool)> = None;
+            for (si, sp) in spellings.iter().enumerate() {
+                // the -a spellings are cycled through along with the option's own
+                let mut av: Vec<String> = afile[si % afile.len()].clone();
+                av.extend(sp.iter().cloned());
+                av.extend(["cmd".to_string(), "init".to_string()]);
+                let args: Vec<&str> = av.iter().map(|s| s.as_str()).collect();
+                let got = run_xargs(&args, &mut |_, _| Outcome::Exit(0));
+                ctx.rep.evaluations += 1;
+                ctx.rep.nontrivial += 1;
+                ctx.rep.count("option_spelling_runs", 1);
+                let obs = (got.inv.clone(), got.code.clone(), got.err.is_empty());
+                match &first {
+                    None => first = Some(obs),
+                    Some(f0) if *f0 != obs => {
+                        ctx.rep.violation(
+                            &format!("C04 one spelling of {name} (or of -a FILE) does not behave like the others"),
+                            format!("input {:?}: xargs {:?} gives {} invocation(s) {:?}, status {:?}, stderr {:?}\n the first spelling {:?} gives {} invocation(s) {:?}, status {:?}", String::from_utf8_lossy(input), av, got.inv.len(), show_inv(&got.inv), got.code, String::from_utf8_lossy(&got.err), spellings[0], f0.0.len(), show_inv(&f0.0), f0.1),
+                            json!({"prop":"C04","spelling":name}),
+                        );
+                    }
+                    _ => {}
+                }
+            }
+        }
+    }
+}
+
+fn show_inv(inv: &[Vec<Vec<u8>>]) -> Vec<String> {
+    inv.iter().take(6).map(|a| a.iter().map(|x| String::from_utf8_lossy(x).to_string()).collect::<Vec<_>>().join(" ")).collect()
 }
 
 /// Inputs far longer than the state-space search reaches: N = 100, 1000, 5000 arguments (lengths
@@ -569,6 +628,10 @@ fn binary_slice(ctx: &mut Ctx) {
 }
 
 fn replay(case: &Value, ctx: &mut Ctx) -> Option<String> {
+    if case["spelling"].is_string() {
+        spelling_slice(ctx);
+        return ctx.rep.violations.keys().next().cloned();
+    }
     if case["binary"] == true {
         println!("binary-level cases are replayed by re-running the check");
         return None;
